@@ -140,6 +140,7 @@ def _havoc_locals(it, frame, names, lc):
 
 
 class _Poison:
+    _pyvc_symbolic = True
     def __init__(self, name):
         self.name = name
 
@@ -236,6 +237,7 @@ def _havoc_ghost(it, name, cur):
 
 
 class GhostArr:
+    _pyvc_symbolic = True
     """Ghost map (nested array) usable in contracts: g[k1][k2]..."""
 
     def __init__(self, term, roles, kind):
@@ -308,6 +310,7 @@ class DictIterInfo:
 
 
 class VisitedSet:
+    _pyvc_symbolic = True
     def __init__(self, term, role):
         self.term, self.role = term, role
 
